@@ -96,18 +96,30 @@ theorem C19_value_terminates (h : K → Nat) (m : MM K T) (k : K) :
     ∀ F, m.cap ≤ F → ∃ r, value h F m k = .ok r :=
   fun F hF => value_ok h F m k hF
 
-/-- full statement for draining `iter_key(key)` (`values`, `values_count`, `contains_value`; used
-by index search): terminates after any history -/
+/-- histories of a map used as the index multimap (`DbIndex::ids`): `insert`, `remove_value`,
+`remove_key`, `reserve` — never `insert_or_replace` -/
+inductive ReachableIndex (h : K → Nat) : MM K T → Prop where
+  | init : ReachableIndex h MM.new
+  | step {m m' : MM K T} (F : Nat) (op : MOp K T) :
+      ReachableIndex h m → (∀ k p v, op ≠ .insertOrReplace k p v) → opFuel m op ≤ F →
+      applyOpW false h F m op = .ok m' → ReachableIndex h m'
+
+/-- full statement for draining `iter_key(key)` (`values`, `values_count`, `contains_value`; in the
+database only the index multimap does this): terminates after any history of the operations the
+index multimap uses. (Over histories that ALSO use `insert_or_replace` the statement is false, in the
+pinned and in the fixed code: see `values_wrap_example` below and notes/coll.md.) -/
 def C19_values_terminates_statement (h : K → Nat) : Prop :=
-  ∀ m : MM K T, Reachable h m → ∀ key v F, m.cap + 1 ≤ F →
+  ∀ m : MM K T, ReachableIndex h m → ∀ key v F, m.cap + 1 ≤ F →
     (∃ r, values h F m key = .ok r) ∧ (∃ r, containsValue h F m key v = .ok r)
 
 /-- **Partial**: the whole iteration terminates on ANY table in which the slot cyclically before
 the key's home position does not hold the key (`NoWrapAt`). What is missing for the full statement:
-a proof that `NoWrapAt` holds after every history (a pair can sit `capacity - 1` slots from home
-only if all other `capacity - 1` slots were `Valid` when it was placed, impossible under the
-`15/16` load limit; needs a first-free-slot characterisation of the three placement loops). Each
-single `next` call terminates unconditionally (`C19_value_terminates`). -/
+a proof that `NoWrapAt` holds after every index-multimap history (`free_index` and the rehash probe
+place a pair at the FIRST non-`Valid` / unoccupied slot from its home — `freeIndexLoop_first`,
+`first_free_not_wrap` in Lemmas/NoWrap.lean — so a pair `capacity - 1` slots from home would need
+`capacity - 1` other `Valid` slots, impossible under the 15/16 load limit; the rehash part of that
+invariant is not machine-checked yet). Each single `next` call terminates unconditionally
+(`C19_value_terminates`). -/
 theorem C19_values_terminates_partial (h : K → Nat) (m : MM K T) (key : K) (v : T)
     (hnw : NoWrapAt m.slots key (homePos h m key)) :
     ∀ F, m.cap + 1 ≤ F →
@@ -216,5 +228,20 @@ example : ∃ m', insertOrReplace (fun k : Nat => k) 584 tomb64 64 (fun _ => tru
   refine ⟨⟨(List.replicate 64 (⟨.deleted, 0, 0⟩ : Slot Nat Nat)).set 0 ⟨.valid, 64, 1⟩, 1⟩, ?_, rfl, ?_⟩
   · decide +kernel
   · decide +kernel
+
+/-- Latent defect of `MultiMapIterator` (NOT reachable through the database API, where maps that
+use `insert_or_replace` are never drained with `values`): after 63 insert/remove cycles slot 63 is
+the only `Empty` slot; `insert_or_replace(64)` (home 0) passes the 63 tombstones and takes it; now
+`values(64)` yields the pair at slot 63, is handed back its start position and goes round again:
+with fuel 70 (more than `capacity`) it still runs out (the real code hangs: corpus/C19/mm-iterator-wrap.ops). -/
+def wrapTable : MM Nat Nat :=
+  ⟨List.replicate 63 ⟨.deleted, 0, 0⟩ ++ [⟨.valid, 64, 7⟩], 1⟩
+
+theorem values_wrap_example :
+    runOpsW false (fun k : Nat => k)
+      (((List.range 63).flatMap fun i => [MOp.insertOrReplace i (fun _ => true) 1, .removeKey i]) ++
+        [.insertOrReplace 64 (fun _ => true) 7]) MM.new = .ok wrapTable ∧
+    values (fun k : Nat => k) 70 wrapTable 64 = .outOfFuel := by
+  constructor <;> decide +kernel
 
 end AgdbColl
